@@ -80,6 +80,11 @@ CHECKS["C07"] = ("exploration",
   "Every perturbation of every corpus program (repository examples, documentation code blocks, generated programs, a hand-written program using every syntactic form), every token string up to length L over a 37-token alphabet, every byte string up to length 2 over a 103-byte alphabet and the same perturbations of literal strings are pushed through scan + parse + type check + compile of every pub fn + Error::prettify in a separate process; the oracle is: terminates within the deadline, no panic or abort, error lists non-empty, every location has start <= end and lies within the input's lines.",
   "Numbers above 256 are not substituted into array-size/range/const positions (legal but legitimately enormous programs); corpus programs that themselves need > 250 ms are left out and listed.", "DESIGN.md §4 C07")
 
+CHECKS["C11"] = ("exploration",
+  "enumeration of compiled and builder-made circuits through the real exporter with an independent Bristol reader/evaluator and re-import, all inputs for small circuits; exhaustive single-edit perturbations of small exports and all short files through the real importer in an isolated worker",
+  "Every circuit of the targeted programs, of families D/E/P (dedup on and off) and of a bounded builder request-sequence search (with repeated, constant and reordered output lists) is exported; the text is checked by the harness's own reader (declared counts, every non-input wire assigned once and before use, outputs are the last wires in order), evaluated from the text and re-imported, and must agree with the original circuit on every input (<= 10 input bits) or on a boundary set; circuits with an input wire as output must be refused. Every line/token/character perturbation of the small exports and every file of <= 3 lines over a 12-line alphabet must make the importer return Ok or Err - never panic, hang or abort (address space limited to 2 GiB).",
+  "Circuits with more than 10 input bits are compared on a boundary input set.", "DESIGN.md §4 C11")
+
 NOT_YET = {
 }
 
